@@ -52,6 +52,9 @@ TEXT.update({
     "C10": ("history monitor at the client boundary (pairwise distinctness, per-call postconditions, set and exactly-once equations after maintain) over scheduler-driven and free-running interleavings; TSan and Miri on the stress mode",
             "Every thread records (call, result); handles must be pairwise distinct and alive for their creator at once, deletions of live handles must succeed, concurrent joins must see every entity alive for the joining thread; after maintain the alive set must equal initial + created - delete-requested, every queued action must have run exactly once, and the allocator hook invariants must hold. Interleavings between the atomic steps of allocate_atomic / kill_atomic / the CAS loops are driven by a seeded token-passing scheduler through the verif-hooks yield points (sampled, counted, not exhaustive); free-running stress, ThreadSanitizer and Miri cover dependency internals and weak-memory behaviours on a best-effort basis.",
             "3.C10"),
+    "C20": ("transcript differencing: lock-step worlds, interference from unrelated worlds/threads, and separate processes (different hash seeds, ASLR, debug vs release)",
+            "The canonical transcript of every handle, result, join sequence, event stream and serialised string of a history is compared between two worlds in one process, against a run disturbed by unrelated worlds on the same and another thread, and - by hash - across separate processes and build flavours.",
+            "3.C20"),
     "C11": ("overlap monitor (per-storage reader/writer counters, logical-clock intervals, torn-write tokens) inside generated systems + borrow-state probe of SystemData declarations",
             "Random system graphs are dispatched on pools of 1-32 threads; each system updates atomic reader/writer counters for exactly the storages it holds, writes and re-validates unique tokens, and stamps enter/exit from a logical clock; after each dispatch exactly-once, conflict-pair disjointness, dependency, barrier and thread-local order are checked, panics escaping dispatch are violations, and for each storage handle type the real borrow state after fetch() is compared with reads()/writes(). Thorough adds ThreadSanitizer.",
             "3.C11"),
